@@ -126,21 +126,27 @@ func (store *fileStore) Reset() error {
 	if err := store.Close(); err != nil {
 		return errors.Wrap(err, "close")
 	}
+	verifCrashPoint("reset:closed", "")
 	if err := removeFile(store.bodyFname); err != nil {
 		return err
 	}
+	verifCrashPoint("reset:removed", store.bodyFname)
 	if err := removeFile(store.headerFname); err != nil {
 		return err
 	}
+	verifCrashPoint("reset:removed", store.headerFname)
 	if err := removeFile(store.sessionFname); err != nil {
 		return err
 	}
+	verifCrashPoint("reset:removed", store.sessionFname)
 	if err := removeFile(store.senderSeqNumsFname); err != nil {
 		return err
 	}
+	verifCrashPoint("reset:removed", store.senderSeqNumsFname)
 	if err := removeFile(store.targetSeqNumsFname); err != nil {
 		return err
 	}
+	verifCrashPoint("reset:removed", store.targetSeqNumsFname)
 	return store.Refresh()
 }
 
@@ -154,6 +160,7 @@ func (store *fileStore) Refresh() (err error) {
 	if err = store.Close(); err != nil {
 		return err
 	}
+	verifCrashPoint("refresh:closed", "")
 
 	creationTimePopulated, err := store.populateCache()
 	if err != nil {
@@ -163,18 +170,23 @@ func (store *fileStore) Refresh() (err error) {
 	if store.bodyFile, err = openOrCreateFile(store.bodyFname, 0660); err != nil {
 		return err
 	}
+	verifCrashPoint("refresh:opened", store.bodyFname)
 	if store.headerFile, err = openOrCreateFile(store.headerFname, 0660); err != nil {
 		return err
 	}
+	verifCrashPoint("refresh:opened", store.headerFname)
 	if store.sessionFile, err = openOrCreateFile(store.sessionFname, 0660); err != nil {
 		return err
 	}
+	verifCrashPoint("refresh:opened", store.sessionFname)
 	if store.senderSeqNumsFile, err = openOrCreateFile(store.senderSeqNumsFname, 0660); err != nil {
 		return err
 	}
+	verifCrashPoint("refresh:opened", store.senderSeqNumsFname)
 	if store.targetSeqNumsFile, err = openOrCreateFile(store.targetSeqNumsFname, 0660); err != nil {
 		return err
 	}
+	verifCrashPoint("refresh:opened", store.targetSeqNumsFname)
 
 	if !creationTimePopulated {
 		if err := store.setSession(); err != nil {
@@ -235,10 +247,12 @@ func (store *fileStore) setSession() error {
 	if _, err := store.sessionFile.Write(data); err != nil {
 		return fmt.Errorf("unable to write to file: %s: %s", store.sessionFname, err.Error())
 	}
+	verifCrashPoint("session:written", store.sessionFname)
 	if store.fileSync {
 		if err := store.sessionFile.Sync(); err != nil {
 			return fmt.Errorf("unable to flush file: %s: %s", store.sessionFname, err.Error())
 		}
+		verifCrashPoint("session:synced", store.sessionFname)
 	}
 	return nil
 }
@@ -252,10 +266,12 @@ func (store *fileStore) setSeqNum(f *os.File, seqNum int) error {
 	if _, err := fmt.Fprintf(f, "%019d", seqNum); err != nil {
 		return fmt.Errorf("unable to write to file: %s: %s", f.Name(), err.Error())
 	}
+	verifCrashPoint("seq:written", f.Name())
 	if store.fileSync {
 		if err := f.Sync(); err != nil {
 			return fmt.Errorf("unable to flush file: %s: %s", f.Name(), err.Error())
 		}
+		verifCrashPoint("seq:synced", f.Name())
 	}
 	return nil
 }
@@ -324,10 +340,12 @@ func (store *fileStore) SaveMessage(seqNum int, msg []byte) error {
 	if _, err := fmt.Fprintf(store.headerFile, "%d,%d,%d\n", seqNum, offset, len(msg)); err != nil {
 		return fmt.Errorf("unable to write to file: %s: %s", store.headerFname, err.Error())
 	}
+	verifCrashPoint("save:index-written", store.headerFname)
 
 	if _, err := store.bodyFile.Write(msg); err != nil {
 		return fmt.Errorf("unable to write to file: %s: %s", store.bodyFname, err.Error())
 	}
+	verifCrashPoint("save:body-written", store.bodyFname)
 	if store.fileSync {
 		return store.syncBodyAndHeaderFilesLocked()
 	}
@@ -348,6 +366,7 @@ func (store *fileStore) syncBodyAndHeaderFilesLocked() error {
 	} else if err = store.headerFile.Sync(); err != nil {
 		return fmt.Errorf("unable to flush file: %s: %s", store.headerFname, err.Error())
 	}
+	verifCrashPoint("save:synced", store.bodyFname+"|"+store.headerFname)
 	return nil
 }
 
